@@ -50,7 +50,7 @@ PROPS = {
     "C04": {"lean": ["QF.Props.C04"],
             "sections": [hist("hist", ["groupagg", "groupframes"]),
                          {"section": "grpadv", "quick": 600, "thorough": 6000, "cover_ops": {"GA"}}]},
-    "C05": {"lean": ["QF.Props.C05", "QF.Props.C04"], "extra_ns": ["QF.Props.C04"], "sections": [hist("hist", ["distinct"])]},
+    "C05": {"lean": ["QF.Props.C05", "QF.Props.C05Distinct", "QF.Props.C04"], "extra_ns": ["QF.Props.C04"], "sections": [hist("hist", ["distinct"])]},
     "C06": {"lean": ["QF.Props.C06"], "sections": [hist("hist", ["apply", "fapply", "rownums"])]},
     "C07": {"lean": ["QF.Props.C07", "QF.Props.C06"], "extra_ns": ["QF.Props.C06"], "sections": [hist("hist", ["eval"])]},
     "C08": {"lean": ["QF.Props.C08"],
@@ -74,7 +74,7 @@ PROPS = {
                            "mirror of float64ToDecimal over the extracted tables"],
             "rule": "cases = (float64 bit pattern, buffer state); each output is checked against the Lean definition of shortest round-trip text (exact big-number arithmetic, QF.Num.isShortestRoundTrip) and against strconv; "
                     "generator: special values, all exponents x boundary mantissas, exact integers, powers of ten +-1ulp, short decimals, subnormals, random bits; distinct by (bits, prefix, spare)"},
-    "C13": {"lean": ["QF.Props.C13", "QF.Props.C12"], "extra_ns": ["QF.Props.C12"],
+    "C13": {"lean": ["QF.Props.C13", "QF.Props.C13Render", "QF.Props.C12"], "extra_ns": ["QF.Props.C12"],
             "sections": [dict(hist("hist", ["tocsv", "tocsv", "sort", "filter", "apply"], quick=250), cover_ops={"tocsv"})],
             "rule": "cases = ToCSV of a derived frame with random Header/Columns options; the bytes are parsed with the spec's RFC 4180 scanner and must denote the frame cell by cell "
                     "(floats: the text must parse back to the identical bits by exact arithmetic), then ReadCSV of those bytes with the types declared must give the expected frame (both EmptyNull settings)"},
